@@ -127,6 +127,16 @@ PROPS = {
         "race": True,
         "monitor": monitors.c14_rpc,
     },
+    "C15": {
+        "level_text": "Theorems: the guards vipnode's own code places in front of every panicking Go operation on received data never let it panic (node_sig_total, address_sig_total, enode_id_total, call_total), a peer request never asks the store for a non-positive or request-sized allocation (active_hosts_limit_positive, active_hosts_alloc_bounded), request handling is total and answers every request with exactly one well-formed class, running code only for well-typed calls to registered methods (reply_well_formed); with C14 serve_never_blocks the read loop is never wedged by honest traffic. Differential fuzz: the real pool, payment, status and agent services, wired as the binary wires them, are fed structured hostile messages (correctly signed requests with hostile parameter values, every kind of bad signature, wrong arities and types, unknown names, odd ids, reply-shaped and non-message bytes) over real Remote connections in a separate process where a panic is an observable exit; after each message a second connection must still be served.",
+        "level_note": "Partial by nature: the theorems cover the guards in vipnode's own code (Model/Guards.lean, Model/Server.lean); panics inside encoding/json, reflect, net/url, go-ethereum crypto and badger are reachable only by the fuzz stream, which samples. A reply carrying `result: null` next to an error counts as well-formed (the property asks for a result or an error).",
+        "lean_modules": ["Vipnode.Props.C15"],
+        "streams": [
+            {"name": "fuzz-memory", "component": "fuzz", "opts": {"driver": "memory"}, "cases": {"quick": 20, "thorough": 400}, "no_shrink": True},
+            {"name": "fuzz-badger", "component": "fuzz", "opts": {"driver": "badger"}, "cases": {"quick": 10, "thorough": 200}, "no_shrink": True},
+            {"name": "rpc-replies", "component": "rpc", "cases": {"quick": 60, "thorough": 600}},
+        ] + pool_streams(40, 400, gen="pool-nonce", prefix="badsig"),
+    },
     "C16": {
         "level_text": "exposed_exactly (a server exposes exactly prefix+lowerFirst(method) for the receiver's exported methods, restricted to the allow-list), unknown_not_found, bad_params_not_run, runs_only_if_well_typed, too_many/too_few/wrong_type_invalid are Lean theorems about the registry and positional-argument model; production_surface re-proves by `decide`, on every run, that the names the *built pool binary* answers (probed over HTTP with every candidate name derived by reflection from the objects behind its services) are exactly the documented API. The model is compared with jsonrpc2.Server on instrumented receivers (invocation counters) and with the running binary over HTTP and WebSocket.",
         "level_note": "Theorems are about Model/Server.lean; encoding/json's type compatibility is the table `compat` (JSON null decodes into any type). Tie: differential on instrumented receivers with invocation counters; the running binary over HTTP/WebSocket with malformed parameter lists and candidate names. Trusted: reflect, encoding/json.",
